@@ -368,6 +368,20 @@ def map_method(ev, ref, o, meth, args, kwargs, node):
         if ev.pure:
             return ev.ite(o.has[kl], v, default)
         return v if ev.st.decide(o.has[kl]) else default
+    if meth == "pop":
+        # d.pop(k[, default]): the value (or the default / KeyError) and the key is gone afterwards
+        kl = unpack(args[0])[0]
+        v, _ = pack(o.vtype, [a[kl] for a in o.val])
+        present = o.has[kl]
+        if len(args) > 1:
+            if ev.pure:
+                ev.unsupported(node, "dict.pop in a pure context")
+            res = v if ev.st.decide(present) else args[1]
+        else:
+            ev.require(present, "KeyError", node)
+            res = v
+        o.has = z3.Store(o.has, kl, z3.BoolVal(False))
+        return res
     if meth == "__iter__" or meth == "__len__":
         ev.unsupported(node, "iteration / len of a symbolic map")
     ev.unsupported(node, "map method %s" % meth)
